@@ -210,12 +210,12 @@ func main() {
 		}
 	}
 	extra := map[string]interface{}{
-		"selftest":            selftest,
+		"selftest":             selftest,
 		"selftest_sensitivity": fmt.Sprintf("%d/%d seeded faults detected", detected, faults),
-		"packages":            len(p.Pkgs),
-		"source_files":        p.NumFiles,
-		"repo_functions":      len(p.RepoFns),
-		"loader":              "go/packages LoadAllSyntax ./... (default build configuration, GOFLAGS=-mod=mod GOPROXY=off) + go/ssa InstantiateGenerics",
+		"packages":             len(p.Pkgs),
+		"source_files":         p.NumFiles,
+		"repo_functions":       len(p.RepoFns),
+		"loader":               "go/packages LoadAllSyntax ./... (default build configuration, GOFLAGS=-mod=mod GOPROXY=off) + go/ssa InstantiateGenerics",
 	}
 	if err := rep.writeEvidence(evDir, *tier, seed, res, d.Explanation, extra, start); err != nil {
 		fmt.Fprintf(os.Stderr, "evidence: %v\n", err)
